@@ -163,6 +163,18 @@ CLAIMED = {
         design='DESIGN.md §5 C20',
         note=NOTE_COMMON + 'PARTIAL by construction: interleavings are explored at column-evaluation / yield-function granularity, not between CPython bytecodes; unscheduled stress runs (thorough) are testing.',
         technique='Lean 4 proof (product-of-state-machines commutation + decided counter-example) + scheduler-driven interleavings'),
+    'C19': dict(
+        text=('Lean theorems over the shell model: `.set` is a typed key-value store - frame (a valid set changes exactly that '
+              'setting), echo (`.set NAME` prints the value just set), rejection (invalid value / unknown name / wrong arity '
+              'produce an error and change nothing), listing; the documented boolean spellings and format values; dispatch - a '
+              'line starting with `.` is never executed as a query (for all lines), statements are queries, legacy commands; '
+              '`.run` default CLOSE date; the generated Settings schema equals the modelled one (decide). Tied to the code by '
+              'transcripts in batch mode: every `.set` compared on output, error text and the whole settings record, every line '
+              'classified by both dispatchers; "prints what the API returns" by comparing every query / .run output with the '
+              'renderer applied to the API result under the current settings, and the CLI options through click.'),
+        design='DESIGN.md §5 C19',
+        note=NOTE_COMMON + 'The printing glue is correspondence only; interactive mode, pager, readline out of scope (batch mode); shlex/cmd.Cmd trusted.',
+        technique='Lean 4 proof (settings state machine, dispatcher) + transcript correspondence + rendering oracle'),
 }
 
 PENDING_REASON = 'check under construction in this round (model or correspondence not yet registered); not claimed yet'
